@@ -346,3 +346,79 @@ def run_rst(run, P):
     solve(f, Env({}), on_event, None, keys, R, key_fn=lambda e: (e.ts.get('cancel'), e.intf(tyap)[:2], tuple(e.nullf(v) for v in sorted(sentv))), max_envs=1024, max_steps=400000)
     run.instance('R-OBS-RST', '%s: RST arm with a matching node' % DISPATCH, n=1 if seen['n'] else 0)
     run.require(seen['n'] > 0, 'R-OBS-RST: no path of the RST arm with a matching queue node reaches the node deletion in %s()' % DISPATCH)
+
+
+def run_dirty(run, P):
+    """R-OBS-DIRTY ("the last state is always eventually notified"): coap_notify_observers() clears r->dirty when it returns.  An
+    observer that is skipped BEFORE its notification was handed to the transmit path (NSTART back-pressure, a large transfer
+    still running) is only ever visited again through the partially-dirty pass, and that pass skips observers whose own dirty
+    flag is clear.  So inside the subscriber loop every path that sets r->partiallydirty = 1 without having sent also sets
+    obs->dirty = 1 before the iteration ends."""
+    run.rule('R-OBS-DIRTY')
+    if not P.has(NOTIFY):
+        if run.fixture_mode:
+            return
+        run.require(False, 'anchor %s() of R-OBS-DIRTY not found' % NOTIFY)
+    f = P.func(NOTIFY)
+    seen = {'pd': 0}
+
+    def fld_set(t, rec, fld):
+        if t.get('k') == 'asg' and t.get('op') == '=' and const_int(t['r']) == 1:
+            l = strip(t['l'])
+            return isinstance(l, dict) and l.get('k') == 'mem' and l.get('f') == fld and l.get('rec') == rec
+        return False
+
+    def is_iter_start(t):
+        # first statement of the loop body: a local is loaded from the current observer
+        if t.get('k') == 'asg' and t.get('op') == '=':
+            r = strip(t['r'])
+            return isinstance(r, dict) and r.get('k') == 'mem' and r.get('rec') == 'coap_subscription_t' and r.get('f') == 'session' and ap(t['l']) and '>' not in ap(t['l'])
+        return False
+
+    def is_send(t):
+        return t.get('k') == 'call' and t.get('fn') in ('coap_send_internal', 'coap_send_q_block2')
+
+    def is_rule_event(ev):
+        t = ev['e']
+        return fld_set(t, 'coap_resource_t', 'partiallydirty') or fld_set(t, 'coap_subscription_t', 'dirty') or is_iter_start(t) or is_send(t)
+    keys, R = relevance(f, is_rule_event)
+
+    def settle(env, ctx):
+        pd = env.ts.get('pd')
+        if pd and not env.ts.get('sent'):
+            ok = bool(env.ts.get('od'))
+            run.oblige('R-OBS-DIRTY', ok, 'skip-marks-observer-dirty')
+            if not ok:
+                run.violation('R-OBS-DIRTY', NOTIFY, pd, 'skipped-observer-not-marked',
+                              'an observer is skipped with r->partiallydirty = 1 but without obs->dirty = 1: when the function clears r->dirty the partially-dirty pass will pass this '
+                              'observer by ("already enqueued") and it never receives the latest state', ctx.path())
+
+    def on_event(ev, env, ctx):
+        t = ev['e']
+        if is_iter_start(t):
+            settle(env, ctx)
+            e = apply_generic(ev, env, R).copy()
+            for k2 in ('pd', 'od', 'sent'):
+                e.ts.pop(k2, None)
+            return [e]
+        if fld_set(t, 'coap_resource_t', 'partiallydirty'):
+            seen['pd'] += 1
+            e = apply_generic(ev, env, R).copy()
+            if not env.ts.get('pd'):
+                e.ts['pd'] = ev['loc']
+            return [e]
+        if fld_set(t, 'coap_subscription_t', 'dirty'):
+            e = apply_generic(ev, env, R).copy()
+            e.ts['od'] = 1
+            return [e]
+        if is_send(t):
+            e = apply_generic(ev, env, R).copy()
+            e.ts['sent'] = 1
+            return [e]
+        return None
+
+    def on_exit(env, ctx):
+        settle(env, ctx)
+    solve(f, Env({}), on_event, on_exit, keys, R, key_fn=lambda e: (e.ts.get('pd'), e.ts.get('od'), e.ts.get('sent')))
+    run.instance('R-OBS-DIRTY', '%s: partially-dirty skips' % NOTIFY, n=1 if seen['pd'] else 0)
+    run.require(seen['pd'] > 0, 'R-OBS-DIRTY: r->partiallydirty = 1 not found in %s()' % NOTIFY)
